@@ -6,11 +6,11 @@
     wiring of the concrete series instance (Alg/MainInst.v). *)
 Require Import List ZArith Arith Bool String Ncring Setoid Morphisms.
 From PV.Base Require Import Classes AlgLemmas.
-From PV.Series Require Import MultiIndex Cauchy Lift Inst ExecIdx Exec SylvInst Wiring.
+From PV.Series Require Import MultiIndex Cauchy Lift Inst ExecIdx Exec SylvInst Wiring SymBase.
 From PV.Block Require Import Mat Masks CoefAlg BlockSel ExecScalar QLemmas QInst.
 From PV.DSL Require Import Syntax Sem.
 From PV.Gen Require Import Algorithms_gen.
-From PV.Alg Require Import MainLift MainCorrect MainInst SemExec SemExecSound Trunc TruncMain GqInv.
+From PV.Alg Require Import MainLift MainCorrect MainInst Unique SemExec SemExecSound Trunc TruncMain GqInv.
 Open Scope string_scope.
 
 Section Tie.
@@ -181,5 +181,54 @@ Proof.
   - exact (concl (@adjoint_upto0)).
   - exact (concl (@Ht_herm_upto0)).
   - exact (concl (@gauge_upto0)).
+Qed.
+
+(** ** uniqueness: any U' that satisfies the least-action conditions up to order N for the loaded H
+    agrees with the implementation's U up to order N *)
+Local Notation H0c := (SylvInst.H0 D k Ef).
+Definition Wt := trunc_wiring_H0 M hsum_trunc_i rfl fen sylv_sub_i (sol "H") H0c
+  (fun x => Equivalence_Reflexive (Rw x))
+  (fun x y => comm_sound_l (k := k) blk ksym kblk cblk keep_eucl x y)
+  (fun x y => comm_sound_r (k := k) blk ksym kblk cblk keep_eucl x y)
+  (fun m y Hy => SylvInst.sylv_ord (keep_sym := ksym) (keep_blk := kblk) (cm_blk := cblk) Ef gq_inv0 Hy)
+  (fun y => SylvInst.sylv_adj (k := k) blk keep cm ksym kblk cblk Ef E_real inv_P inv_opp inv_conj y)
+  Sel_H0_b
+  (fun x => SylvInst.Sel_comm_H0 (k := k) blk keep cm ksym kblk cblk Ef x)
+  (fun y => SylvInst.sylv_spec (k := k) blk keep cm ksym kblk cblk Ef gq_inv0 inv_spec y)
+  (proj2 (teq_eqN _ _) H_herm) (proj2 (teq_eqN _ _) H_zero).
+
+Lemma t_sylv_left : forall x : TT,
+  teq M (Rp (MainLift.sylv fen (AlgLemmas.comm (Zc (sol "H")) (Rp x)))) (Rp x).
+Proof.
+  intros x. destruct Wt as [_ _ _ _ sP _ _ _ _ _].
+  apply (teq_trans M _ (Rp (MainLift.sylv fen (AlgLemmas.comm H0c (Rp x))))).
+  { apply (teq_Rp M). apply sP. apply (teq_comm M). exact (proj2 (teq_eqN _ _) H_zero). apply (teq_refl M). }
+  apply lift_teq. unfold MainLift.sylv. cbn [afenv].
+  apply (sylv_left_H0 D k blk keep cm ksym kblk cblk Ef gq_inv0 inv_spec).
+Qed.
+
+Theorem tie_unique (U' : TT) :
+  ord 1 (U' - 1) ->
+  eqN D k N (adj U' * U') 1 ->
+  eqN D k N (Rp (adj U' * sol "H" * U')) 0 ->
+  eqN D k N (Sel (half ((U' - 1) - adj (U' - 1)))) 0 ->
+  eqN D k N U' (sol "U").
+Proof.
+  intros h1 h2 h3 h4. apply teq_eqN.
+  pose proof Wt as W.
+  assert (L2 : @least_action TT _ _ _ _ _ _ (teq M) (trunc_ops M) (BAt M hsum_trunc_i) (sol "H") (sol "U")).
+  { exact (@main_least_action TT _ _ _ _ _ _ (teq M) (trunc_ops M) (Rgt M) (BAt M hsum_trunc_i) rfl fen sol trunc_solution W). }
+  assert (L1 : @least_action TT _ _ _ _ _ _ (teq M) (trunc_ops M) (BAt M hsum_trunc_i) (sol "H") U').
+  { unfold least_action. refine (Logic.conj _ (Logic.conj _ (Logic.conj _ _))).
+    - change (ord (Nat.min 1 M) (U' - 1)). cbn [Nat.min]. exact h1.
+    - exact (proj2 (teq_eqN _ _) h2).
+    - exact (proj2 (teq_eqN _ _) h3).
+    - exact (proj2 (teq_eqN _ _) h4). }
+  destruct W as [_ _ _ _ sP sO _ _ sA _].
+  eapply (@least_action_unique TT _ _ _ _ _ _ (teq M) (trunc_ops M) (Rgt M) (BAt M hsum_trunc_i) (sol "H") sA (MainLift.sylv fen)).
+  - exact sO.
+  - exact t_sylv_left.
+  - exact L1.
+  - exact L2.
 Qed.
 End Tie.
